@@ -551,6 +551,9 @@ class Channel(object):
                 self._broker_close(406, "PRECONDITION_FAILED - unknown delivery tag %d" % delivery_tag)
                 return
             tags = [delivery_tag]
+        if multiple and len(tags) > 1:
+            b.log("ack_multiple", tags=list(tags), delivery_tag=delivery_tag, connection=self.connection.name,
+                  queues=sorted(set(self.unacked[t][0] for t in tags)))
         for t in tags:
             qname, m, consumer = self.unacked.pop(t)
             consumer.unacked -= 1
